@@ -290,6 +290,20 @@ pub fn rule_ids_universe() -> (Vec<Vec<H>>, Vec<Vec<F>>) {
     (lists, seqs)
 }
 
+pub fn known_names() -> Vec<&'static str> {
+    vec![
+        "Accept-Ranges", "Access-Control-Allow-Credentials", "Access-Control-Allow-Headers", "Access-Control-Allow-Methods", "Access-Control-Allow-Origin",
+        "Access-Control-Expose-Headers", "Access-Control-Max-Age", "Age", "Allow", "Alt-Svc", "Cache-Control", "Clear-Site-Data", "Connection",
+        "Content-Disposition", "Content-Encoding", "Content-Language", "Content-Length", "Content-Location", "Content-Range", "Content-Security-Policy",
+        "Content-Security-Policy-Report-Only", "Content-Type", "Cross-Origin-Embedder-Policy", "Cross-Origin-Opener-Policy", "Cross-Origin-Resource-Policy",
+        "Date", "ETag", "Expect-CT", "Expires", "Feature-Policy", "Keep-Alive", "Last-Modified", "Link", "Location", "NEL", "Origin-Agent-Cluster",
+        "Permissions-Policy", "Pragma", "Proxy-Authenticate", "Public-Key-Pins", "Referrer-Policy", "Refresh", "Report-To", "Retry-After", "Server",
+        "Server-Timing", "Set-Cookie", "SourceMap", "Strict-Transport-Security", "Timing-Allow-Origin", "Tk", "Trailer", "Transfer-Encoding", "Upgrade",
+        "Vary", "Via", "WWW-Authenticate", "Warning", "X-Content-Type-Options", "X-DNS-Prefetch-Control", "X-Frame-Options", "X-Permitted-Cross-Domain-Policies",
+        "X-Powered-By", "X-Request-Id", "X-Robots-Tag", "X-Runtime", "X-UA-Compatible", "X-XSS-Protection", "X-Cache", "X-Served-By", "X-Varnish", "X-Generator",
+    ]
+}
+
 pub fn replay(case: &Value) -> Vec<String> {
     let headers: Vec<H> = serde_json::from_value(case["headers"].clone()).unwrap_or_default();
     let filters: Vec<F> = serde_json::from_value(case["filters"].clone()).unwrap_or_default();
@@ -298,6 +312,7 @@ pub fn replay(case: &Value) -> Vec<String> {
         Some("twins") => ":names-differing-by-one-non-letter-bit",
         Some("long") => ":long-lists",
         Some("rule-ids") => ":rule-ids-header-name",
+        Some("known") => ":many-known-names",
         _ => "",
     };
     check_case(&headers, &filters).into_iter().map(|(s, _)| format!("{s}{suffix}")).collect()
@@ -368,6 +383,31 @@ pub fn run(tier: Tier) -> i32 {
             ctx.eval(1);
             for (sig, what) in crate::common::run_case(|| json!({"headers": headers, "filters": filters, "universe": "rule-ids"}), || check_case(headers, filters)) {
                 ctx.report(Violation { signature: format!("{sig}:rule-ids-header-name"), what, case: json!({"headers": headers, "filters": filters, "universe": "rule-ids"}), weight: (headers.len() + filters.len() * 4) as u64 });
+            }
+        }
+    });
+    // fifth universe: 72 well-known response header names, all present; every ordered pair of DIFFERENT names with every pair
+    // of operations (first op on the first name, second op on the second). More names than any small table of buckets / bits
+    // has slots, so whatever a filter chain may derive from a name (a hash, a bit, a bucket), two names here share it
+    let known = known_names();
+    let known_headers: Vec<H> = known.iter().enumerate().map(|(i, n)| (n.to_string(), format!("v{i}"))).collect();
+    let pairs: Vec<(usize, usize)> = (0..known.len()).flat_map(|a| (0..known.len()).filter(move |b| *b != a).map(move |b| (a, b))).collect();
+    par_range(ctx.threads, pairs.len(), |i| {
+        let (a, b) = pairs[i];
+        for op1 in ["remove", "replace", "override"] {
+            for op2 in ["replace", "default", "override", "remove", "add"] {
+                let filters = vec![
+                    F { action: op1.to_string(), header: known[a].to_lowercase(), value: "n1".to_string(), hash: false },
+                    F { action: op2.to_string(), header: known[b].to_string(), value: "n2".to_string(), hash: false },
+                ];
+                // the second name is present in the list (every name is) - and absent in a second list
+                let without: Vec<H> = known_headers.iter().filter(|(n, _)| *n != known[b]).cloned().collect();
+                for headers in [&known_headers, &without] {
+                    ctx.eval(1);
+                    for (sig, what) in crate::common::run_case(|| json!({"headers": headers, "filters": filters, "universe": "known"}), || check_case(headers, &filters)) {
+                        ctx.report(Violation { signature: format!("{sig}:many-known-names"), what: what.chars().take(600).collect(), case: json!({"headers": headers, "filters": filters, "universe": "known"}), weight: 500 });
+                    }
+                }
             }
         }
     });
